@@ -26,10 +26,30 @@ type access struct {
 func fieldAccesses(fn *ssa.Function, owner *types.Named) []access {
 	var out []access
 	st := structOf(owner)
-	isOwner := func(t types.Type) bool {
-		return types.Identical(ssax.Deref(t), owner) || types.Identical(t, owner)
+	// the owner itself and the struct types it embeds (their fields are promoted fields of the owner)
+	var embedded []types.Type
+	var collect func(s *types.Struct, depth int)
+	collect = func(s *types.Struct, depth int) {
+		for i := 0; s != nil && i < s.NumFields() && depth < 3; i++ {
+			f := s.Field(i)
+			if es, ok := f.Type().Underlying().(*types.Struct); ok && f.Embedded() {
+				embedded = append(embedded, f.Type())
+				collect(es, depth+1)
+			}
+		}
 	}
-	_ = st
+	collect(st, 0)
+	isOwner := func(t types.Type) bool {
+		if types.Identical(ssax.Deref(t), owner) || types.Identical(t, owner) {
+			return true
+		}
+		for _, e := range embedded {
+			if types.Identical(ssax.Deref(t), e) || types.Identical(t, e) {
+				return true
+			}
+		}
+		return false
+	}
 	ssax.Instrs(fn, func(in ssa.Instruction) {
 		switch x := in.(type) {
 		case *ssa.FieldAddr:
@@ -37,6 +57,9 @@ func fieldAccesses(fn *ssa.Function, owner *types.Named) []access {
 				return
 			}
 			_, f, _ := ssax.FieldAddrOf(x)
+			if _, isStruct := f.Type().Underlying().(*types.Struct); isStruct && f.Embedded() {
+				return // selection of the embedded part: the accesses are those of its fields
+			}
 			refs := x.Referrers()
 			if refs == nil {
 				return
@@ -45,21 +68,21 @@ func fieldAccesses(fn *ssa.Function, owner *types.Named) []access {
 				switch y := r.(type) {
 				case *ssa.Store:
 					if y.Addr == ssa.Value(x) {
-						out = append(out, access{in: y, base: x.X, f: f, write: true, store: y, kind: "write"})
+						out = append(out, access{in: y, base: ssax.OuterBase(x.X), f: f, write: true, store: y, kind: "write"})
 					} else {
-						out = append(out, access{in: y, base: x.X, f: f, write: true, kind: "address taken"})
+						out = append(out, access{in: y, base: ssax.OuterBase(x.X), f: f, write: true, kind: "address taken"})
 					}
 				case *ssa.UnOp:
 					if y.Op == token.MUL {
-						out = append(out, access{in: y, base: x.X, f: f, kind: "read"})
+						out = append(out, access{in: y, base: ssax.OuterBase(x.X), f: f, kind: "read"})
 					} else {
-						out = append(out, access{in: y, base: x.X, f: f, write: true, kind: "address taken"})
+						out = append(out, access{in: y, base: ssax.OuterBase(x.X), f: f, write: true, kind: "address taken"})
 					}
 				case *ssa.FieldAddr, *ssa.IndexAddr:
-					out = append(out, access{in: r, base: x.X, f: f, kind: "read"})
+					out = append(out, access{in: r, base: ssax.OuterBase(x.X), f: f, kind: "read"})
 				case *ssa.DebugRef:
 				default:
-					out = append(out, access{in: r, base: x.X, f: f, write: true, kind: "address taken"})
+					out = append(out, access{in: r, base: ssax.OuterBase(x.X), f: f, write: true, kind: "address taken"})
 				}
 			}
 		case *ssa.Field:
@@ -187,8 +210,17 @@ func (m *model) ruleSealed(s *report.Sink) {
 	st := structOf(m.SJ)
 	exp := 0
 	for i := 0; i < st.NumFields(); i++ {
-		if st.Field(i).Exported() || st.Field(i).Embedded() {
+		f := st.Field(i)
+		switch {
+		case f.Exported():
 			exp++
+		case f.Embedded():
+			// an embedded unexported struct without methods only groups fields; anything else (an interface, a type
+			// with methods, an exported type) opens the job's state or behaviour to other goroutines
+			_, isStruct := f.Type().Underlying().(*types.Struct)
+			if !isStruct || types.NewMethodSet(f.Type()).Len()+types.NewMethodSet(types.NewPointer(f.Type())).Len() > 0 {
+				exp++
+			}
 		}
 	}
 	s.Check(exp == 0, "S4", "ScheduledJob|exported or embedded fields", "", "no exported/embedded field", fmt.Sprintf("%d exported/embedded field(s)", exp))
